@@ -29,7 +29,7 @@ pub fn encode_stored(data: &[u8], block: usize) -> Vec<u8> {
 #[cfg(test)]
 mod tests {
     use super::*;
-    use crate::testutil::Rng;
+    use crate::refimpl::testutil::Rng;
     use std::io::Read;
 
     #[test]
